@@ -30,6 +30,12 @@ pub fn run(tier: Tier) -> i32 {
         let qs = seek_queries(&probes, &modes);
         let before = acc.evaluations;
         run_queries("C02", &spec, &bytes, &model, &qs, acc);
+        // the same battery over a source serving short and interrupted reads (big files and a
+        // 1-in-16 sample of the others)
+        if big || i % 16 == 0 {
+            acc.count("files_also_queried_over_a_short_reading_source", 1);
+            crate::qcheck::run_queries_io("C02", &spec, &bytes, &model, &qs, acc, true);
+        }
         if blocks > spec.cfg.index_levels as usize + 2 {
             acc.nontrivial += acc.evaluations - before;
         }
